@@ -1,5 +1,6 @@
-"""Determinism self-test (DESIGN 2.11): same seed twice in-process, and once more in a fresh interpreter under another
-PYTHONHASHSEED and worker count; event-log and result digests must be identical."""
+"""Determinism self-test (DESIGN 2.11): the same seeds under 16 and under 4 worker processes, and once more in a fresh interpreter
+under another PYTHONHASHSEED and worker count, every run in a fresh fork of the warmed-up process; event-log and result digests must
+be identical."""
 from __future__ import annotations
 
 import glob
@@ -21,7 +22,10 @@ def _digests(args):
     out = {}
     for i in indices:
         s = derive_seed(seed, prop, i)
-        o = runner.execute(mod, Choices(s))
+        # every run in a fresh fork of the warmed-up process -- the state in which the runner verifies, minimises and replays a
+        # violation.  (Run back to back in one process, the event log of a run can depend on what earlier runs left warm in
+        # module-level caches although its result does not; the batch handles that case with session-history replay.)
+        o = runner.execute_isolated(mod, Choices(s))
         out[i] = (o["event_digest"], o["result_digest"], o["n_choices"], bool(o["error"]))
     return out
 
